@@ -79,6 +79,7 @@ class Backend(object):
 
 class NP(Backend):
     name = "np"
+    tol = 1e-9
 
     def arr(self, x):
         return np.array(x, dtype=np.int64)
@@ -104,6 +105,7 @@ class NP(Backend):
 
 class TORCH(Backend):
     name = "torch"
+    tol = 1e-5  # complex64 arithmetic inside the port
 
     def __init__(self):
         import torch
